@@ -9,6 +9,14 @@ import sys
 HERE = os.path.dirname(os.path.dirname(os.path.abspath(__file__)))
 sys.path.insert(0, HERE)
 
+def ready_set():
+    """properties whose check has been reviewed and committed by the lead (tools/ready.txt)"""
+    p = os.path.join(HERE, "tools", "ready.txt")
+    if not os.path.exists(p):
+        return set()
+    return set(x.strip() for x in open(p).read().split() if x.strip())
+
+
 NOT_BUILT = "check not built yet in this round (planned in DESIGN.md section 5); not claimed until it exists"
 
 ENGINES = [
@@ -29,7 +37,7 @@ def main():
         pid = "C%02d" % i
         path = os.path.join(HERE, "harness", "props", pid.lower() + ".py")
         mod = None
-        if os.path.exists(path):
+        if os.path.exists(path) and pid in ready_set():
             mod = importlib.import_module("harness.props." + pid.lower())
         m = getattr(mod, "MANIFEST", None) if mod else None
         if not m or not m.get("claimed", True):
